@@ -51,6 +51,14 @@ def gen_s_case(rng, cls=None, force=None):
     else:
         case = c04.gen_case(rng, cls, force)
     case["fam"] = "S"
+    names = [f["name"] for f in case["features"]]
+    overlap = any(a != b and a in b for a in names for b in names)
+    if len(names) > 1 and not overlap and rng.random() < 0.4:
+        # feature names contained in one another (age / age_band): features are selected by name
+        j = rng.randrange(1, len(names))
+        new = rng.choice([names[0] + "_b", names[0] + "2", "x" + names[0]])
+        if new not in names:
+            case["features"][j]["name"] = new
     p = case["params"]
     if "max_n_mod" in p and p["min_freq"] < 0.1:
         # up to 20 base modalities: keep the number of tested combinations (all recorded in the
@@ -283,6 +291,18 @@ def strip_recs(rs):
     return json.dumps([{k: v for k, v in r.items() if k != "feature"} for r in rs], sort_keys=True)
 
 
+def never_declared(kept, declared):
+    """names no feature carries: a plain one, one that contains the name of a kept feature and one
+    that is contained in it (feature selection is by equality of names, never by substring)"""
+    names = [UNKNOWN]
+    if kept:
+        k = sorted(kept)[0]
+        names += [k + "_zz", "zz_" + k + "_zz"]
+        if len(k) > 1:
+            names.append(k[:-1])
+    return [n for n in names if n not in declared and n not in kept]
+
+
 def snapshot(obj):
     """to_json() as plain JSON data"""
     return json.loads(json.dumps(obj.to_json(), sort_keys=True, default=repr))
@@ -322,7 +342,7 @@ def run_s(case):
     j0 = snapshot(obj)
     out["summary_all"] = call_table(lambda: obj.summary())
     out["summary_each"] = {n: call_table(lambda n=n: obj.summary(n)) for n in kept}
-    unknown = [n for n in declared if n not in kept] + [UNKNOWN]
+    unknown = [n for n in declared if n not in kept] + never_declared(kept, declared)
     out["summary_unknown"] = {n: call_table(lambda n=n: obj.summary(n)) for n in unknown}
     out["summary_all_2"] = call_table(lambda: obj.summary())
     j1 = snapshot(obj)
@@ -340,7 +360,9 @@ def run_s(case):
             out["history_all"] = call_records(lambda: obj.history())
             out["history_each_2"] = each()
             out["history_all_2"] = call_records(lambda: obj.history())
-        out["history_unknown"] = call_records(lambda: obj.history(UNKNOWN))
+        hist_declared = list(getattr(obj, "_history", None) or {})
+        out["history_unknown"] = {n: (lambda r: r if isinstance(r, str) else "table")(
+            call_records(lambda n=n: obj.history(n))) for n in never_declared(kept, declared + hist_declared)}
         out["summary_all_3"] = call_table(lambda: obj.summary())
         j2 = snapshot(obj)
         out["pure_history"] = j1 == j2
@@ -713,8 +735,10 @@ def oracle_history_s(case, out):
         if not out.get("history_none"):
             return False, "history() of a discretizer that is not a carver is not None"
         return True, ""
-    if out.get("history_unknown") != "assert":
-        return False, "history(f) for a never declared feature: AssertionError expected"
+    for n, r in (out.get("history_unknown") or {}).items():
+        if r != "assert":
+            return False, (f"history({n!r}) for a name no carved feature carries: AssertionError expected, "
+                           f"got {'a table' if r == 'table' else r}")
     hall = out["history_all"]
     if isinstance(hall, str):
         return False, f"history() raised ({hall})"
@@ -895,7 +919,9 @@ class C16(Prop):
             "features: quantitative flavours incl. close boundaries, categorical incl. numeric-looking "
             "values, ordinal; NaN share 0-30%) x class (Discretizer, QuantitativeDiscretizer, "
             "QualitativeDiscretizer, BinaryCarver, ContinuousCarver, MulticlassCarver) x output_dtype x "
-            "dropna x JSON rebuild; summary(), summary(f) for every kept f, for every dropped f and for a "
+            "dropna x JSON rebuild; feature names contained in one another in ~40% of the multi-feature cases "
+            "(q0 / q0_b / xq0) and never declared names containing / contained in a kept name; "
+            "summary(), summary(f) for every kept f, for every dropped f and for a "
             "never declared name, history(), history(f) (each called twice, history() first or history(f) first), "
             "to_json() before/after, transform(X_train) are read; 60% of the dropna=False cases with missing "
             "values get per-feature NaN status != global flag (update_discretizer / JSON); all compared with the "
@@ -1037,7 +1063,8 @@ class C16(Prop):
                 elif any(st["str_nan"] in [v for v in decs(vs) if isinstance(v, str)] for _, vs in st["content"]):
                     nanpos = "grouped"
                 raw = st["name"]
-                fl = next((f["flavour"] for f in case["features"] if raw == f["name"] or raw.startswith(f["name"] + "_")), "?")
+                cands = [f for f in case["features"] if raw == f["name"] or raw.startswith(f["name"] + "_")]
+                fl = max(cands, key=lambda f: len(f["name"]))["flavour"] if cands else "?"
                 parts.append(f"{st['kind']}:{fl}:{len(keys)}:{nanpos}")
             p = case["params"]
             return (f"S|{case['cls']}|{p['output_dtype']}|{p['dropna']}|{bool(case.get('json'))}|"
